@@ -23,11 +23,33 @@ impl<'tcx> Hx<'tcx> {
                 ("def", s(path_of(self.tcx, did))),
                 ("dk", s(format!("{:?}", kind).split(|c| c == '(' || c == ' ').next().unwrap_or("").to_string())),
             ]),
-            Res::Local(id) => J::O(vec![("local", s(self.tcx.hir_name(id).to_string()))]),
+            Res::Local(id) => J::O(vec![("local", s(self.local_name(id)))]),
             Res::SelfCtor(did) => J::O(vec![("selfctor", s(path_of(self.tcx, did)))]),
             Res::SelfTyAlias { alias_to, .. } => J::O(vec![("selfty", s(path_of(self.tcx, alias_to)))]),
             Res::PrimTy(p) => J::O(vec![("prim", s(p.name_str()))]),
             other => J::O(vec![("res", s(format!("{:?}", other)))]),
+        }
+    }
+
+    /// user variables keep their name; compiler-generated bindings of a desugaring (e.g. the `lhs`
+    /// temporaries of a destructuring assignment) get a unique suffix so that they do not collide
+    fn local_name(&self, id: hir::HirId) -> String {
+        let ident = self.tcx.hir_ident(id);
+        let mut desugared = ident.span.desugaring_kind().is_some();
+        if !desugared {
+            for (_, node) in self.tcx.hir_parent_iter(id).take(4) {
+                if let hir::Node::LetStmt(l) = node {
+                    if matches!(l.source, hir::LocalSource::AssignDesugar) {
+                        desugared = true;
+                    }
+                    break;
+                }
+            }
+        }
+        if desugared {
+            format!("{}#{}", ident.name, id.local_id.as_u32())
+        } else {
+            ident.name.to_string()
         }
     }
 
@@ -91,9 +113,9 @@ impl<'tcx> Hx<'tcx> {
             hir::PatKind::Wild => J::O(vec![("k", s("wild"))]),
             hir::PatKind::Missing => J::O(vec![("k", s("wild"))]),
             hir::PatKind::Never => J::O(vec![("k", s("never"))]),
-            hir::PatKind::Binding(mode, _, ident, sub) => J::O(vec![
+            hir::PatKind::Binding(mode, id, _ident, sub) => J::O(vec![
                 ("k", s("bind")),
-                ("name", s(ident.name.to_string())),
+                ("name", s(self.local_name(id))),
                 ("byref", J::Bool(!matches!(mode.0, hir::ByRef::No))),
                 ("sub", opt(sub, |x| self.pat(x))),
             ]),
